@@ -209,19 +209,20 @@ theorem consumeAtomEscape_height (st : PState) :
   all_goals try (simp only [OkP_ok]; rw [charNode_height ‹charNode _ _ = _›]; omega)
   all_goals try (simp only [OkP_ok]; exact backRefs_height _ _)
 
-theorem bracketLoop_height (fl : Flags) (invert : Bool) (fuel : Nat) (inp : List Nat) (cps : CPS.IvList) :
-    OkP (bracketLoop fl invert fuel inp cps) (fun p => p.1.height = 1) := by
-  fun_induction bracketLoop fl invert fuel inp cps
+theorem bracketLoop_height (fl : Flags) (hn : Bool) (invert : Bool) (fuel : Nat) (inp : List Nat)
+    (cps : CPS.IvList) :
+    OkP (bracketLoop fl hn invert fuel inp cps) (fun p => p.1.height = 1) := by
+  fun_induction bracketLoop fl hn invert fuel inp cps
   all_goals try simp only [*]
   all_goals try (simp; done)
   all_goals assumption
 
-theorem consumeBracket_height (fl : Flags) (inp : List Nat) :
-    OkP (consumeBracket fl inp) (fun p => p.1.height = 1) := by
+theorem consumeBracket_height (fl : Flags) (hn : Bool) (inp : List Nat) :
+    OkP (consumeBracket fl hn inp) (fun p => p.1.height = 1) := by
   unfold consumeBracket
   split
   · simp
-  · exact bracketLoop_height _ _ _ _ _
+  · exact bracketLoop_height _ _ _ _ _ _
 
 
 /-! ## The pieces of `consumeAtom`, heights only -/
@@ -476,7 +477,7 @@ theorem consumeAtomA_h {cd : PState → Res (Node × PState)} {st : PState} {b a
   split
   · exact (atomClassSetA_h result hinp).mono fun _ h => h.mono ha3
   split
-  · have h := consumeBracket_height st.flags st.input
+  · have h := consumeBracket_height st.flags (!st.named.isEmpty) st.input
     split
     · simp
     · rename_i nd rest heq
